@@ -283,6 +283,20 @@ func run(s *core.Shard) {
 			s.Nontrivial(c.Split.Key())
 		}
 	}
+	for i := 0; i < 12; i++ {
+		if !s.Mine(n + 182 + i) {
+			continue
+		}
+		if !s.Begin(fmt.Sprintf("port-range/%d", i)) {
+			continue
+		}
+		c := portRange(i)
+		if ok, _ := judge(s, c); ok {
+			s.Cover("carrier", c.Carrier)
+			s.Cover("focus", c.Focus)
+			s.Nontrivial(c.Split.Key())
+		}
+	}
 	for i := 0; i < 50; i++ {
 		if !s.Mine(n + 132 + i) {
 			continue
